@@ -204,7 +204,7 @@ def call(fn, *args, **kw):
         return fn(*args, **kw)
     except ValueError as ex:
         raise Refused(ex)
-    except (KeyboardInterrupt, SystemExit, MemoryError):
+    except (KeyboardInterrupt, SystemExit):
         raise
     except Exception as ex:  # noqa: BLE001
         raise Crash(ex)
